@@ -8,7 +8,7 @@ import c14 as c14mod
 NSHARDS = min(16, os.cpu_count() or 4)
 
 
-def generic(profile="verif", extra_sets=(), timeout_quick=1500, timeout_thorough=4 * 3600, nshards=None, thorough_profiles=(), env=None, pre=None, sanitizers=()):
+def generic(profile="verif", extra_sets=(), timeout_quick=1500, timeout_thorough=4 * 3600, nshards=None, thorough_profiles=(), env=None, pre=None, sanitizers=(), quick_profiles=()):
     def run(ctx):
         ctx["build"](profile)
         if pre:
@@ -30,6 +30,20 @@ def generic(profile="verif", extra_sets=(), timeout_quick=1500, timeout_thorough
         to = timeout_thorough if ctx["tier"] == "thorough" else timeout_quick
         shards, crashes, timeouts = ctx["run_shards"](ctx["pid"], ctx["tier"], ctx["seed"], ctx["rundir"], n,
                                                       ctx["vh_path"](profile), sets, env, to)
+        if ctx["tier"] == "quick":
+            # a second, smaller pass with debug assertions OFF: a debug_assert that stops a commit in the
+            # default build hides what the same code does to the file in a release build
+            for prof in quick_profiles:
+                ctx["build"](prof)
+                qenv = dict(env or {})
+                qenv["VERIF_SCALE"] = "40"
+                s2, c2, t2 = ctx["run_shards"](ctx["pid"], ctx["tier"], ctx["seed"] + 7919, ctx["rundir"], n,
+                                               ctx["vh_path"](prof), sets + ["build=" + prof], qenv, to, tag="-" + prof)
+                for s in s2:
+                    s.setdefault("counters", {})["release_profile_worker_runs"] = 1
+                shards += s2
+                crashes += c2
+                timeouts += t2
         if ctx["tier"] == "thorough":
             for prof in thorough_profiles:
                 ctx["build"](prof)
@@ -46,7 +60,8 @@ def generic(profile="verif", extra_sets=(), timeout_quick=1500, timeout_thorough
                 senv["VERIF_SCALE"] = "25"
                 ssets = list(sets) + ["build=" + kind]
                 if kind == "asan":
-                    senv["ASAN_OPTIONS"] = "detect_leaks=0:halt_on_error=1:abort_on_error=1"
+                    # (allocation-heavy oracles: recording a deep stack for every malloc/free costs a factor of ten)
+                    senv["ASAN_OPTIONS"] = "detect_leaks=0:halt_on_error=1:abort_on_error=1:malloc_context_size=2"
                     if "LD_PRELOAD" in senv:
                         continue  # the I/O shim and the ASan runtime both want to be first
                 else:
@@ -126,7 +141,7 @@ PROPS = {
         "level": "exploration",
         "rule": HISTORY_RULE + "After every successful commit the file bytes are parsed by the independent checker (page roles, "
                 "conservation, ordering, separators, extents) and DB::check() is called. non-trivial = same structural-change rule as C01.",
-        "run": generic(thorough_profiles=("verif-rel",)),
+        "run": generic(sanitizers=('asan',), thorough_profiles=("verif-rel",), quick_profiles=("verif-rel",)),
         "floors": {"any": {"fileck_runs": 100, "pages_classified": 1000, "txs_with_2+_bucket_deletions": 3,
                            "txs_deleting_nested_then_ancestor": 3, "leaf_count_decreases(merges)": 5}},
         "assumptions": ["harness/src/fileck.rs encodes the pinned on-disk layout correctly (it is also cross-checked against golden files in C15)"],
@@ -141,7 +156,7 @@ PROPS = {
                 "non-trivial = history with at least two such full in-transaction comparisons after mutations, or an under-way-iteration case.",
         "run": generic(sanitizers=('asan',), thorough_profiles=("verif-rel",)),
         "floors": {"any": {"full_state_verifications": 500, "live_mutations_ahead_of_an_open_iterator": 2000, "live_entries_compared_after_mutation": 20000,
-                           "live_buckets": 100, "live_range-from-to": 100, "live_seeked-cursor": 100}},
+                           "live_buckets": 100, "live_range-from-to": 100, "live_seeked-cursor": 100, "live_huge_leaf_entries": 70000, "tobytes:Listed": 500}},
         "assumptions": ["a cursor is always created after the mutation it is expected to reflect"],
     },
     "C08": {
@@ -151,11 +166,13 @@ PROPS = {
                 "everything, inserting between all entries, mixed) plus seeded random trees. On each tree the probe set = every key, key+0x00, "
                 "a string just below each key, the empty key, a key above the maximum; ALL seeks over it and ALL ordered pairs x "
                 "{Included,Excluded,Unbounded}^2 through the (Bound,Bound) impl plus a..b, a..=b, a.., ..b, ..=b, .. are compared with BTreeMap "
-                "filter semantics; next() is called 3 more times after every exhaustion; kv_pairs()/buckets() on cursors and on ranges. "
+                "filter semantics; next() is called 3 more times after every exhaustion; kv_pairs()/buckets() on cursors and on ranges; every provided "
+                "Iterator method an implementation could override (count, last, nth on both sides of the length + the rest + 3 more next(), size_hint, "
+                "skip, step_by, fold, for_each, position, find) on cursors, kv_pairs, buckets and ranges. "
                 "exhaustive=true only if every tree got the full pair grid (large trees use a probe stride in the quick tier). "
                 "non-trivial = tree on which more than 10 seeks/ranges were compared.",
         "run": generic(sanitizers=('asan',), thorough_profiles=("verif-rel",)),
-        "floors": {"any": {"seeks": 200, "range_scans": 5000, "next_calls_after_exhaustion": 1000}},
+        "floors": {"any": {"seeks": 200, "range_scans": 5000, "next_calls_after_exhaustion": 1000, "iterator_adaptor_comparisons(count,last,nth,size_hint,skip,step_by,fold,find..)": 5000}},
         "assumptions": ["iteration after seek(absent key) may start at the predecessor or the successor (or at the end if there is no successor)"],
     },
     "C03": {
@@ -166,7 +183,7 @@ PROPS = {
                 "every writer the next writer's private free set (probe hook) must be disjoint from the pages reachable from the newest header and "
                 "from every open reader's snapshot; after every writer the bytes of every pinned snapshot are re-hashed. "
                 "distinct = distinct step sequence; non-trivial = a sequence in which pages were rewritten in place while a reader was open.",
-        "run": generic(thorough_profiles=("verif-rel",)),
+        "run": generic(sanitizers=('asan',), thorough_profiles=("verif-rel",)),
         "floors": {"any": {"full_reader_verifications": 500, "free_set_invariant_evaluations": 200,
                            "pages_rewritten_in_place_while_a_reader_was_open": 50, "max_readers": 3}},
         "assumptions": ["single thread: histories that would need a file growth with an open reader are skipped (documented self-deadlock) and counted as inconclusive"],
@@ -182,8 +199,8 @@ PROPS = {
                 "C10): fixed-size hwm <= L+2D+8 and no second-half growth above D; variable-size hwm <= 4(L+D)+16 and second-half growth <= 10%+D; "
                 "while a reader is open at most D pages per transaction; after it closes hwm(c+k) <= hwm(c+2)+D. "
                 "non-trivial = run of >= 40 transactions in which pages below the previous high-water mark were re-allocated.",
-        "run": generic(thorough_profiles=()),
-        "floors": {"any": {"transactions": 1000, "pages_allocated_below_previous_hwm(reuse)": 1000, "runs_with_periodic_reopen": 5, "runs_with_a_multi_page_free_list": 4, "runs_with_reader_held": 2, "runs_with_reader_hand_over": 2}},
+        "run": generic(sanitizers=('asan',), thorough_profiles=()),
+        "floors": {"any": {"transactions": 1000, "pages_allocated_below_previous_hwm(reuse)": 1000, "runs_with_periodic_reopen": 5, "runs_with_a_multi_page_free_list": 4, "short_readers_opened_and_closed_on_8_threads_before_a_run": 1000, "runs_with_reader_held": 2, "runs_with_reader_hand_over": 2}},
         "assumptions": ["bounds are sufficient conditions for a plateau, not the tightest possible"],
     },
     "C06": {
@@ -212,17 +229,20 @@ PROPS = {
                 "the rest, page zeroed / all ones / first sector zeroed, seeded 2-24 byte overwrites, and prefixes of the other header's record (torn "
                 "header write). Each mutated copy is opened through the public API and read in full; if the mutation touches a semantic byte (type byte, "
                 "the nine fields, the checksum) the contents must equal the state of the INTACT header, otherwise one of the two recorded states; every "
-                "16th open is followed by a commit and DB::check. exhaustive=true when every offset got all 255 values. "
+                "16th open is followed by a commit and DB::check. A reduced mutation set is also applied to files created with 4..16 initial pages after "
+                "1-3 small commits (files that are full to their last page) and to files whose newest commit changed nothing. "
+                "exhaustive=true when every offset got all 255 values. "
                 "non-trivial = mutation touching a semantic byte.",
         "run": generic(thorough_profiles=()),
-        "floors": {"any": {"outcome:fell-back-to-previous": 1000, "outcome:kept-newest": 1000, "region:type-byte": 100, "region:checksum": 500}},
+        "floors": {"any": {"outcome:fell-back-to-previous": 1000, "outcome:kept-newest": 1000, "region:type-byte": 100, "region:checksum": 500,
+                           "small_and_noop_base_files": 40, "mutations_on_small_and_noop_base_files": 2000}},
         "assumptions": ["FNV-1a is a bijection per absorbed byte, so every single-byte change of a hashed field is detectable; 2^-64 accidental matches of multi-byte overwrites are ignored"],
     },
     "C02": {
         "level": "fault_enumeration",
         "rule": "faults = crash points of recorded executions. Reuse-heavy histories (small and 20-60 op transactions, bucket deletes, page reuse, "
                 "one growth workload in five; plus directed workloads: first commits of 4-page files, a multi-page free list rewritten by small commits, "
-                "repeated file extension at page sizes 65536 and 16384) run under the LD_PRELOAD shim, which records every write (with bytes, offset, file size) and sync on the "
+                "repeated file extension at page sizes 65536 and 16384, further commits on golden files written by the pinned release) run under the LD_PRELOAD shim, which records every write (with bytes, offset, file size) and sync on the "
                 "database fd. For EVERY commit: (a) process kill = every prefix of the write sequence, the last write also cut at 512-byte boundaries; "
                 "(b) power loss = at every sync, every subset of the writes pending since the previous sync (exhaustive up to 10 writes, else all "
                 "single-missing / single-present / all-but-header + seeded subsets), sector-torn variants (prefix, suffix, random sectors) of one write, "
@@ -230,8 +250,8 @@ PROPS = {
                 "and without the other pending writes. Every distinct image is parsed by the independent checker (must be sound and equal the previous "
                 "or the new state; the image holding all writes of an acknowledged commit must show the new state), reopened through the public API "
                 "(same contents, DB::check), and every 8th takes one more commit. distinct/non-trivial = distinct image bytes.",
-        "run": generic(thorough_profiles=(), env=SHIM_ENV, pre=build_shim),
-        "floors": {"any": {"commits_analysed": 20, "crash_images_tested(distinct bytes)": 2000, "images_showing_previous_state": 200,
+        "run": generic(thorough_profiles=(), env=SHIM_ENV, pre=lambda ctx: (build_shim(ctx), unpack_golden(ctx)), extra_sets=("golden=" + os.path.join(ROOT, "out", "golden"),)),
+        "floors": {"any": {"commits_analysed": 20, "workloads_on_files_written_by_the_pinned_release": 3, "crash_images_tested(distinct bytes)": 2000, "images_showing_previous_state": 200,
                            "images_showing_new_state": 50, "header_word_torn_images_generated": 500, "sync_events_recorded": 20, "directed_workloads": 6,
                            "commits_that_extended_the_file": 4, "commits_with_a_multi_page_free_list": 2}},
         "assumptions": ["file size metadata is durable at the point it was observed", "a sync makes every earlier write durable; writes are torn at 512-byte sectors, the header record at 8-byte words",
@@ -242,14 +262,15 @@ PROPS = {
         "rule": "faults = for each target transaction (small, multi-page value, nested+sibling bucket deletes, many pages, growing by one / two extension "
                 "steps) on a prepared file with a non-empty free list: the commit's libc write / fsync calls are counted first, then EVERY call index is "
                 "failed in a fresh run: write -> EIO, ENOSPC, genuine short write (half written) then EIO, and 'every call from here on fails'; "
-                "fsync -> EIO; extension -> RLIMIT_FSIZE at 6 limits around the needed size; plus sampled pairs (one fault in this commit, one in the next). "
+                "fsync -> EIO; extension -> RLIMIT_FSIZE at 6 limits around the needed size; plus sampled pairs (one fault in this commit, one in the next); every "
+                "single fault on the non-growing targets a second time with an older reader held open across the failing commit and the follow-ups. "
                 "Oracle per run: commit must not panic; Ok only if the new state is visible; same handle shows exactly pre or post state; the header on "
                 "file parses as a sound tree; the next writer's free set is disjoint from the live pages; DB::check; three follow-up transactions "
                 "commit and read back; after reopen the model state is read back and DB::check passes. exhaustive=true: every single call index of every "
                 "target was failed. non-trivial = run in which the armed fault actually fired.",
         "run": generic(thorough_profiles=(), env=SHIM_ENV, pre=build_shim),
         "floors": {"any": {"injected_runs": 200, "faults_that_fired": 150, "commit_returned_err": 100, "follow_up_transactions_verified": 300,
-                           "extension_failures_by_file_size_limit": 3}},
+                           "extension_failures_by_file_size_limit": 3, "runs_with_an_older_reader_held_open": 100, "older_reader_verifications": 300, "failed_growing_transactions_retried_on_the_same_handle": 5}},
         "assumptions": ["faults are injected at the libc boundary; fallocate failures are produced with RLIMIT_FSIZE because fs4 bypasses libc"],
     },
     "C16": {
@@ -275,9 +296,10 @@ PROPS = {
                 "for the small files, a sweep of ~250 other sizes incl. non-multiples of 8 next to the real one) without changing the file. Legacy-header "
                 "files with 1..5 commits (newest legacy header in slot 0 and in slot 1) get the same treatment. Per produced file: the pinned-layout reader must parse "
                 "it to the manifest contents. The space is finite and fully enumerated (exhaustive). non-trivial = every case.",
-        "run": generic(thorough_profiles=("verif-rel",), pre=unpack_golden, extra_sets=("golden=" + os.path.join(ROOT, "out", "golden"),)),
+        "run": generic(sanitizers=('asan',), thorough_profiles=("verif-rel",), pre=unpack_golden, extra_sets=("golden=" + os.path.join(ROOT, "out", "golden"),)),
         "floors": {"any": {"golden_files_checked": 8, "legacy_header_files_checked": 4, "opens_fully_verified_against_manifest": 8,
-                           "further_commits_on_golden_files": 800, "legacy_files_with_1_to_5_commits_checked": 10, "mismatching_page_sizes_refused": 48, "files_produced_by_current_code_parsed": 4,
+                           "further_commits_on_golden_files": 800, "legacy_files_with_1_to_5_commits_checked": 10, "files_whose_free_list_exactly_fills_its_pages_reopened": 2,
+                           "free_list_walk_reopens": 300, "mismatching_page_sizes_refused": 48, "files_produced_by_current_code_parsed": 4,
                            "golden_files_with_garbage_in_uninitialised_padding": 8, "small_file_page_size_mismatches_refused": 25}},
         "assumptions": ["the golden files were produced once from the pinned tree and are integrity-checked against SHA256SUMS",
                         "every file any other check produces is also parsed by the same pinned-layout reader (C05, C02, C10, C11, C16)"],
@@ -292,12 +314,14 @@ PROPS = {
                 "uniform random choices, and free-running stress with seeded sleeps at the same points. distinct = distinct sequence of (worker, point) "
                 "decisions; non-trivial = execution with at least one preemption or lock-blocked worker (or a free-running one). "
                 "Scenarios: 1-2 reader threads (1-2 read transactions each, re-reading 1-2 times) against one writer thread chaining 2-4 page-reusing "
-                "commits, one variant with a commit that grows the file. Oracle from a global event counter: a reader's first full read must equal a "
+                "commits (also from two writer threads), variants with a commit that grows the file (last, or followed by page-reusing commits), one "
+                "starting on a file that is full to its last page. Oracle from a global event counter: a reader's first full read must equal a "
                 "committed state S_i with (#commits returned before its begin was called) <= i <= (#commits started before its begin returned); every "
                 "re-read must equal the first; no writer alive during the reader's life may have pages reachable from the reader's (older) snapshot in "
-                "its private free set (probe hook); nothing panics.",
+                "its private free set (probe hook); nothing panics; after an execution in which every transaction ended the shared list of registered "
+                "readers is empty and the file passes the independent parser and DB::check.",
         "run": generic(sanitizers=('tsan',), thorough_profiles=(), nshards=8, timeout_quick=1800),
-        "floors": {"any": {"executions": 1000, "preemptions": 1000, "reader_transactions_judged": 1000, "readers_that_outlived_a_later_commit": 100,
+        "floors": {"any": {"executions": 1000, "executions_starting_on_an_exactly_full_file": 100, "preemptions": 1000, "reader_transactions_judged": 1000, "readers_that_outlived_a_later_commit": 100,
                            "writer/reader_pairs_checked_for_free_set_safety": 500, "free_running_executions": 100}},
         "assumptions": ["the total order of harness events comes from one SeqCst counter", "schedules are enumerated at the instrumented yield points only"],
     },
@@ -312,7 +336,7 @@ PROPS = {
                 "decisions; non-trivial = execution with at least one preemption or lock-blocked worker (or a free-running one). "
                 "Scenarios: 2-3 writer threads doing read-modify-write increments of one counter (each also writes a unique key), one variant writing a "
                 "1 MiB value so that the file grows and is remapped, with 1-2 reader threads checking counter == number of increment keys inside one "
-                "snapshot. Oracle: a harness-side flag strictly inside the span the write transaction is open must never see two writers; final counter "
+                "snapshot and calling DB::check() after closing it; one variant starts on a file that is full to its last page. Oracle: a harness-side flag strictly inside the span the write transaction is open must never see two writers; final counter "
                 "== committed increments == increment keys; no counter value read by two committed increments; every thread finishes: a state in which "
                 "every unfinished worker sits in a futex wait is a deadlock; a reader found blocked while no writer is extending the file is a violation.",
         "run": generic(sanitizers=('tsan',), thorough_profiles=(), nshards=8, timeout_quick=1800),
@@ -327,7 +351,8 @@ PROPS = {
                 "the markers it sees, commits its own marker and runs DB::check. Orderings are FORCED with the LD_PRELOAD shim's gates: the first opener "
                 "is held at every libc boundary of its open (after open64, before/after the initialising write, before/after fsync, before mmap) until "
                 "the second (and third) opener's open64 has returned, and the second opener is held after its open64 until the first one maps the file; "
-                "plus seeded start offsets (0-3 ms) and hold times (0-5 ms). Oracle: hold intervals pairwise disjoint; the k-th opener sees exactly the "
+                "plus an opener held just before its open(2) of a not-yet-existing path while another creates / initialises / closes the database, an opener "
+                "queued on the lock receiving 2-6 signals (it retries interrupted opens), and seeded start offsets (0-3 ms) and hold times (0-5 ms). Oracle: hold intervals pairwise disjoint; the k-th opener sees exactly the "
                 "markers of the k-1 earlier ones; no opener errors, panics, dies or hangs (watchdog => inconclusive). "
                 "non-trivial = run with a forced ordering or one in which an opener demonstrably waited for another.",
         "run": generic(thorough_profiles=(), pre=build_shim, extra_sets=("shim=" + SHIM,), nshards=8),
